@@ -296,7 +296,9 @@ def optional_keys(ctx, rule):
     ctx.check(none_ok and some_ok and len(shapes) == 2, rule, body.path, "ignore_list", "ignoreList is None for an empty ignore list and the collected set otherwise", detail=str(list(shapes)))
     sc = q.root_local(a.field("sources_content"))
     shapes = [sh for sh, site, _ in q.def_shapes(body, sc, {})] if sc is not None else []
-    ok = len(shapes) == 2 and "Option::None{}" in shapes and any(q.wild("Option::Some{0:Iterator::collect(Iterator::map(SourceMap::source_contents(arg1),closure:*))}", x) for x in shapes)
+    pure = ["Option::Some{0:Iterator::collect(Iterator::map(SourceMap::source_contents(arg1),%s(Option::map(p1,%s(%s)))))}" % (LAM, LAM, c % "p1") for c in STRING_COPY] + \
+           ["Option::Some{0:Iterator::collect(Iterator::map(SourceMap::source_contents(arg1),%s(Option::map(p1,fn:%s))))}" % (LAM, c.split("(")[0]) for c in STRING_COPY]
+    ok = len(shapes) == 2 and "Option::None{}" in shapes and any(q.wild("Option::Some{0:Iterator::collect(Iterator::map(SourceMap::source_contents(arg1),closure:*))}", x) or x in pure for x in shapes)
     ctx.check(ok, rule, body.path, "sources_content",
               "sourcesContent is None unless at least one source has contents, and the collected contents otherwise", detail=str(shapes))
     copies = [c % "p1" for c in STRING_COPY]
@@ -332,7 +334,16 @@ def _element_closures(ctx, rule, body, a):
     for sh, site, e in (q.def_shapes(body, sc, {}) if sc is not None else []):
         cl = cl or _closure_in(e)
     cb = ctx.facts.body(cl.closure, required=False) if cl is not None else None
-    if not ctx.check(cb is not None and len(cl.ops) == 1, rule, body.path, "closure:contents", "the contents go through a closure capturing exactly the `have contents` flag"):
+    if cb is None or (cl is not None and len(cl.ops) == 0):
+        # flag computed after the fact: `contents.iter().any(Option::is_some)` over the collected copies
+        ANY = "Iterator::any(slice::iter(*),fn:Option::is_some)"
+        okp = True
+        for sh, site, _ in (q.def_shapes(body, sc, {}) if sc is not None else []):
+            okp = okp and has_fact(body, site[0], {}, ("false" if sh == "Option::None{}" else "true", ANY, None))
+        ctx.check(okp and sc is not None, rule, body.path, "closure:contents",
+                  "sourcesContent is written exactly when some collected entry is present (any(Option::is_some) over the copied contents)")
+        return
+    if not ctx.check(len(cl.ops) == 1, rule, body.path, "closure:contents", "the contents go through a closure capturing exactly the `have contents` flag"):
         return
     cap = cl.ops[0]
     flag = q.root_local(cap)
@@ -428,25 +439,23 @@ def sections(ctx, rule):
         return
     a = agg[2]
     sh = q.shape(a.field("sections"))
-    ctx.check(q.wild("Option::Some{0:Iterator::collect(Iterator::map(SourceMapIndex::sections(arg1),closure:*))}", sh), rule, body.path, "sections:all", "every section is written, in order", detail=sh)
+    ctx.check(q.wild("Option::Some{0:Iterator::collect(Iterator::map(SourceMapIndex::sections(arg1),closure:*))}", sh) or q.wild("Option::Some{0:Iterator::collect(Iterator::map(SourceMapIndex::sections(arg1),fn:*))}", sh), rule, body.path, "sections:all", "every section is written, in order", detail=sh)
     ctx.check(q.shape(a.field("file")).startswith("Option::map(SourceMapIndex::get_file(arg1)"), rule, body.path, "file", "the index file name is written")
     fsh = q.shape(a.field("file"))
     ctx.check(fsh in ["Option::map(SourceMapIndex::get_file(arg1),%s(Value::String{0:%s}))" % (LAM, c % "p1") for c in STRING_COPY], rule, body.path, "file:copy", "... unchanged", detail=fsh)
-    cl = None
-    for x in a.field("sections").walk():
-        if isinstance(x, Agg) and x.ak == "closure":
-            cl = ctx.facts.body(x.closure)
+    cl = q.callable_body(a.field("sections"))
     if not ctx.check(cl is not None, rule, body.path, "sections:closure", "the per-section writer is recognisable"):
         return
+    P = {q.first_param(cl): "arg2"}  # the section, whether the writer is a closure or a function
     secs = [cl.expr_of_rvalue(s["rv"]) for bi, si, s, it in cl.locations() if not it and s["k"] == "assign" and s["rv"]["k"] == "agg" and s["rv"].get("adt") == "jsontypes::RawSection"]
     if not ctx.check(len(secs) == 1, rule, cl.path, "RawSection", "one RawSection is built per section"):
         return
     s = secs[0]
-    ctx.check(q.shape(s.field("offset")) == "RawSectionOffset{line:SourceMapSection::get_offset_line(arg2),column:SourceMapSection::get_offset_col(arg2)}", rule, cl.path, "offset",
-              "offset.line / offset.column carry the section's line / column offset (not swapped)", detail=q.shape(s.field("offset")))
-    ush = q.shape(s.field("url"))
+    ctx.check(q.shape(s.field("offset"), P) == "RawSectionOffset{line:SourceMapSection::get_offset_line(arg2),column:SourceMapSection::get_offset_col(arg2)}", rule, cl.path, "offset",
+              "offset.line / offset.column carry the section's line / column offset (not swapped)", detail=q.shape(s.field("offset"), P))
+    ush = q.shape(s.field("url"), P)
     ctx.check(ush in ["Option::map(SourceMapSection::get_url(arg2),fn:%s)" % c.split("(")[0] for c in STRING_COPY], rule, cl.path, "url", "the section url is written unchanged", detail=ush)
-    msh = q.shape(s.field("map"))
+    msh = q.shape(s.field("map"), P)
     ctx.check(msh == "Option::map(SourceMapSection::get_sourcemap(arg2),%s(Box::new(DecodedMap::as_raw_sourcemap(p1))))" % LAM, rule, cl.path, "map",
               "the embedded map is written when present, converted recursively and whole through DecodedMap::as_raw_sourcemap", detail=msh)
     dsh = [sh for sh, _, _ in q.def_shapes(cl, 0, {})]
